@@ -184,6 +184,15 @@ def e4_harnesses():
     return hs
 
 
+def canon_harnesses():
+    hs = []
+    for c in gen_e4.E4_CORPUS + gen_e4.CANON_ONLY:
+        hs.append(h("e4", "proofs::canon_%s" % c["name"],
+                    "grammar %s %s: every state of the table the real compiler computed stands for canonical LR(1) states (independent textbook construction, vlib/canon.py, related by equal transition paths) with the same item core and exactly their transitions, and every item's lookahead set = union of the canonical lookaheads (none lost, none invented)" % (c["file"], " ".join(c["args"])),
+                    "all (state, item, lookahead) and (state, symbol) cells of the table (symbolic indices over the complete table)", F_TABLE, tiers=Q, timeout=600, mem_gb=6, cost=1, extra=NOMEM))
+    return hs
+
+
 PROPS["C01"] = dict(
     level="other",
     explanation=(
@@ -466,9 +475,13 @@ PROPS["C04"] = dict(
         "union, non-kernel items untouched) and for a single-item kernel under Pager; (2) the consequence the user relies on: "
         "for every grammar of the corpus (LALR(1) grammars, grammars that are LR(1) but not LALR(1) and need state splitting, "
         "under table types LALR and LALR_PAGER) the table the real compiler computes is conflict-free and the automaton over it "
-        "accepts exactly the sentences, for every token string up to the bound (shared with C01)."
+        "accepts exactly the sentences, for every token string up to the bound (shared with C01); (3) the statement itself, per "
+        "corpus grammar: an independent textbook canonical LR(1) construction (vlib/canon.py) is related to the computed table by "
+        "equal transition paths, and the solver decides over ALL (state, item, lookahead) and (state, symbol) cells that each table "
+        "state has the item core and exactly the transitions of its canonical states and that every item's lookahead set is the "
+        "union of the canonical lookaheads - none lost, none invented - for LALR, LALR_PAGER and LALR_RN tables (harnesses canon_*)."
     ),
-    residual="closure / calc_states / propagate_follows as fixpoints over a whole automaton for arbitrary grammars; the weak-compatibility test of merge_state for kernels of 2+ items (CBMC exhausts 12 GB on the iterator-heavy code even with stand-in sets; its effect is covered only through the corpus grammars that need splitting: g4, g9 pager_g1, g10 lalrpop768, g11)",
+    residual="grammars outside the corpus (the comparison with canonical LR(1) is complete per grammar but the grammar axis is a finite corpus and the table construction runs concretely); closure / calc_states / propagate_follows as fixpoints over a whole automaton for arbitrary grammars; the weak-compatibility test of merge_state for kernels of 2+ items (CBMC exhausts 12 GB on the iterator-heavy code even with stand-in sets; its effect is covered only through the corpus grammars that need splitting: g4, g9 pager_g1, g10 lalrpop768, g11)",
     assumptions=["stand-ins: BTreeSet<SymbolIndex> -> 8-bit bitset with the same method names and ascending iteration; SymbolVec/ProdVec/ItemVec/Vec -> fixed arrays / fixed-capacity vector; itertools::chain -> Iterator::chain",
                  "see C01 for the corpus/automaton assumptions"],
     harnesses=[KD[n] for n in ("firsts_0", "firsts_1", "firsts_2", "firsts_3", "rn_len_0", "rn_len_2", "rn_len_3", "rn_len_4", "merge_lalr_2", "merge_pager_1", "kern_twin_must_fail")] + e4_harnesses(),
@@ -520,6 +533,6 @@ E4Q = {x["name"].split("::")[-1]: x for x in e4_harnesses()}
 PROPS["C09"]["harnesses"] += [E4Q[n] for n in ("lr_g20_empty_trailing_q", "lr_g7_sugar_q", "lr_g5_opt_list_q", "lr_g20_empty_trailing_t", "lr_g7_sugar_t")]
 PROPS["C09"]["explanation"] += " For three corpus grammars that use EMPTY inside and after other symbols, ?, *, +[separator] sugar, the language of the grammar the compiler actually analysed (automaton over its table, all token strings up to the bound) equals the language of the written grammar (independent Earley reference built from the written productions)."
 PROPS["C01"]["harnesses"] = e4_harnesses()
-PROPS["C04"]["harnesses"] = [x for x in PROPS["C04"]["harnesses"] if x["crate"] != "e4"] + e4_harnesses()
+PROPS["C04"]["harnesses"] = [x for x in PROPS["C04"]["harnesses"] if x["crate"] != "e4"] + e4_harnesses() + canon_harnesses()
 
 PROPS["C16"]["explanation"] += " As a by-product of regenerating the encodings, the real front end, table construction and generator are run natively on every corpus grammar (about 40 grammar/setting pairs); a panic there is reported as a C16 violation with the grammar as replay (a concrete falsification, not a solver verdict); a diagnostic (Err) is not."
